@@ -238,8 +238,10 @@ def report(ctx, inv, level, name, steps, rows):
         "SessDisabledCookie": "a session cookie of a DISABLED user still authenticates",
         "SessDisabledOneTime": "a one-time session (websocket token) of a DISABLED user still authenticates",
     }.get(inv, "%s is broken" % inv)
-    where = {"rest": "through the REST layer (checkPublicAuth returns AuthenticateCookie/AuthenticateOneTimeSession's user without consulting Disabled(): HTTP 200/426 instead of 401)",
-             "auth": "at the Authenticator"}[level]
+    where = {"rest": "through the REST layer (HTTP 200/426 instead of 401)", "auth": "at the Authenticator"}[level]
+    if level == "rest" and inv in DISABLED_INVS:
+        where = ("through the REST layer: checkPublicAuth returns the user of AuthenticateCookie / AuthenticateOneTimeSession without consulting "
+                 "Disabled() (HTTP 200/426 instead of 401)")
     report_violation(ctx, "%s@%s:%s" % (inv, level, name), "%s %s; history: %s" % (what, where, show(steps)),
                      {"behaviour": steps, "invariant": inv, "level": level,
                       "real_trace": [{k: r.get(k) for k in ("a", "u", "s", "res", "status", "U")} for r in rows_named(rows, steps)]})
